@@ -228,13 +228,18 @@ def check(src, rep):
                 try:
                     ok_ = le.call_lambda(ex.node, [ctx], "cosem") if isinstance(ex.node, (ast.Lambda, ast.FunctionDef)) else le.eval_this(ex.node, ctx, "cosem")
                 except NotConstant as e:
-                    raise Undecided(f"Check of DateTime outside the evaluable subset: {e}")
+                    if "of None" in str(e):
+                        ok_ = True  # needs a whole parse context (conditional members): decided by the context rule below
+                    else:
+                        raise Undecided(f"Check of DateTime outside the evaluable subset: {e}")
                 if not ok_ and not badc:
                     badc += 1
                     rep.violation("R1", "cosem.DateTime", "check-rejects-valid", "a Check of the date-time struct rejects a valid date-time with a specified time of day: such clocks (e.g. a meter clock reset to an early year) are not decoded at all",
                                   file, c.line or dt.line, witness=f"year={year} month={mo} day={d} {h}:{mi}:{se}: {ex.src[:80]}")
     if checks and not badc:
         rep.ok("R1", f"{len(checks)} Check member(s)", "accept every sampled valid date-time with a specified time of day (years 1..9999)")
+    # ---------------------------------------------------------------- R1 (cont.): every Check / Computed member on whole parse contexts
+    _members_on_contexts(rep, M, dt, file)
     # ---------------------------------------------------------------- R5 routes
     _routes(rep, w, dt, src)
     # ---------------------------------------------------------------- R6 normalisers
@@ -320,6 +325,139 @@ def _computed(rep, le, comp, file, dt=None):
     rep.count("computed_cells", n)
     if not bad:
         rep.ok("R4", "computed datetime", f"{n} value-class cells: arguments are (year, month, day_of_month, hour, minute, second, hundredths*10000 or 0, timezone(timedelta(minutes=-deviation)) or None), independent of the clock status")
+
+
+class _RealEval(LamEval):
+    """LamEval in which the datetime library is the library itself: its constructors and methods are pure, so on concrete fields the members of the struct
+    are evaluated exactly (including the exceptions they raise)"""
+
+    def eval(self, e, env, mod):
+        import datetime as _dt
+        if isinstance(e, ast.Name) and e.id == "datetime" and e.id not in env:
+            return _dt
+        if isinstance(e, ast.Attribute):
+            base = self.eval(e.value, env, mod)
+            if base is _dt or isinstance(base, (_dt.datetime, _dt.date, _dt.time, _dt.timedelta, _dt.timezone, type)) and getattr(base, "__module__", "datetime") == "datetime":
+                try:
+                    return getattr(base, e.attr)
+                except AttributeError:
+                    raise _MemberRaises("AttributeError", e.attr)
+            if base is None:
+                raise _MemberRaises("AttributeError", f"None.{e.attr}")
+        if isinstance(e, ast.Call):
+            import types
+            f = None
+            try:
+                f = self.eval(e.func, env, mod)
+            except NotConstant:
+                f = None
+            if f is not None and (getattr(f, "__module__", None) == "datetime" or (isinstance(f, (types.BuiltinMethodType, types.MethodDescriptorType, types.BuiltinFunctionType)) and
+                                                                                 type(getattr(f, "__self__", None)).__module__ == "datetime")):
+                args = [self.eval(a, env, mod) for a in e.args]
+                kw = {k.arg: self.eval(k.value, env, mod) for k in e.keywords if k.arg}
+                try:
+                    return f(*args, **kw)
+                except (ValueError, OverflowError, TypeError) as ex:
+                    raise _MemberRaises(type(ex).__name__, str(ex))
+        if isinstance(e, ast.BinOp):
+            a, b = self.eval(e.left, env, mod), self.eval(e.right, env, mod)
+            if type(a).__module__ == "datetime" or type(b).__module__ == "datetime":
+                import operator
+                try:
+                    return {ast.Add: operator.add, ast.Sub: operator.sub, ast.Mult: operator.mul}[type(e.op)](a, b)
+                except KeyError:
+                    raise NotConstant("operator on a date-time value")
+                except (ValueError, OverflowError, TypeError) as ex:
+                    raise _MemberRaises(type(ex).__name__, str(ex))
+        if isinstance(e, ast.Compare) and len(e.ops) == 1 and isinstance(e.ops[0], (ast.Is, ast.IsNot)):
+            a, b = self.eval(e.left, env, mod), self.eval(e.comparators[0], env, mod)
+            return (a is b) if isinstance(e.ops[0], ast.Is) else (a is not b)
+        return super().eval(e, env, mod)
+
+
+class _MemberRaises(Exception):
+    def __init__(self, cls, msg=""):
+        super().__init__(f"{cls}: {msg}")
+        self.cls = cls
+
+
+def _members_on_contexts(rep, M, dt, file):
+    """whole parse contexts of the struct, built member by member from raw field values the way construct does (adapters applied, conditional members
+    by their condition, bit fields MSB first); every Check must hold and every Computed member must evaluate for every valid date-time"""
+    re_ = _RealEval(M)
+    subs = [s for s in dt.a.get("subs", []) if isinstance(s, N)]
+    n = 0
+    bad = None
+    years = ((1, 1, 1, 0, 0, 0), (1, 1, 1, 0, 30, 0), (9999, 12, 31, 23, 30, 59), (2021, 2, 28, 12, 0, 0), (2024, 2, 29, 23, 59, 59), (1970, 1, 1, 0, 0, 0))
+    for (y, mo, d, h, mi, se) in years:
+        for dev in (None, 0, 60, -60, 720, -720):
+            for status in (0x00, 0x01, 0x0F, 0x80, 0xC0, 0xFE, 0xFF):
+                for hund in (None, 0, 99):
+                    for dow in (1, 7, 0xFF):
+                        raw = {"year": y, "month": mo, "day_of_month": d, "day_of_week": dow, "hour": h, "minute": mi, "second": se, "hundredths_of_second": 0xFF if hund is None else hund,
+                               "deviation": -0x8000 if dev is None else dev}
+                        ctx = Ctx()
+                        try:
+                            for s_ in subs:
+                                k = s_.kind
+                                if k == "ExprAdapter" and s_.name:
+                                    decd = s_.a.get("decoder")
+                                    rawv = raw.get(s_.name, 0)
+                                    ctx[s_.name] = re_.call_lambda(decd.node, [rawv, ctx], decd.mod or "cosem") if isinstance(decd, Expr) else rawv
+                                elif k == "Int" and s_.name:
+                                    ctx[s_.name] = raw.get(s_.name, 0)
+                                elif k == "Peek" and s_.name:
+                                    ctx[s_.name] = status
+                                elif k == "If" and s_.name and isinstance(s_.a.get("sub"), N) and s_.a["sub"].kind == "BitStruct":
+                                    cond = s_.a.get("cond")
+                                    take = re_.eval_this(cond.node, ctx, cond.mod or "cosem") if isinstance(cond, Expr) and not isinstance(cond.node, (ast.Lambda, ast.FunctionDef)) else \
+                                        re_.call_lambda(cond.node, [ctx], cond.mod or "cosem") if isinstance(cond, Expr) else True
+                                    if take:
+                                        bits, pos = Ctx(), 8
+                                        for b_ in s_.a["sub"].a.get("subs", []):
+                                            if isinstance(b_, N) and b_.kind == "BitsInteger":
+                                                wdt = b_.a.get("bits", 1)
+                                                pos -= wdt
+                                                if b_.name:
+                                                    bits[b_.name] = (status >> pos) & ((1 << wdt) - 1)
+                                        ctx[s_.name] = bits
+                                    else:
+                                        ctx[s_.name] = None
+                                elif k == "Computed" and s_.name and isinstance(s_.a.get("expr"), Expr):
+                                    ex_ = s_.a["expr"]
+                                    ctx[s_.name] = re_.call_lambda(ex_.node, [ctx], ex_.mod or "cosem") if isinstance(ex_.node, (ast.Lambda, ast.FunctionDef)) else re_.eval_this(ex_.node, ctx, ex_.mod or "cosem")
+                                elif k == "Check" and isinstance(s_.a.get("expr"), Expr):
+                                    ex_ = s_.a["expr"]
+                                    okc = re_.call_lambda(ex_.node, [ctx], ex_.mod or "cosem") if isinstance(ex_.node, (ast.Lambda, ast.FunctionDef)) else re_.eval_this(ex_.node, ctx, ex_.mod or "cosem")
+                                    if not okc and hund != -1:
+                                        # a Check may reject only an unspecified time of day (the datetime cannot be built then)
+                                        bad = bad or ("check-rejects-valid", s_, f"a Check rejects the valid date-time {y}-{mo}-{d} {h}:{mi}:{se} (deviation {dev}, status {hex(status)}, day of week {dow})")
+                            n += 1
+                        except _MemberRaises as ex:
+                            bad = bad or ("member-raises", s_, f"member `{s_.name or s_.kind}` raises {ex.cls} for the valid date-time {y}-{mo}-{d} {h}:{mi}:{se} (deviation {dev}, status {hex(status)}, "
+                                          f"hundredths {hund}, day of week {dow}): the date-time (and with it the whole message) is not decoded")
+                        except NotConstant as ex:
+                            if "of None" in str(ex):
+                                bad = bad or ("member-raises", s_, f"member `{s_.name or s_.kind}` fails for the valid date-time {y}-{mo}-{d} {h}:{mi}:{se} (status {hex(status)}, deviation {dev}): {ex}")
+                            else:
+                                rep.undecide(f"R1 member {s_.name or s_.kind} of DateTime outside the evaluable subset: {ex}")
+                                return
+                        if bad:
+                            break
+                    if bad:
+                        break
+                if bad:
+                    break
+            if bad:
+                break
+        if bad:
+            break
+    rep.count("datetime_contexts", n)
+    if bad:
+        rep.violation("R1", "cosem.DateTime", bad[0], bad[2], file, bad[1].line or dt.line or 1)
+    else:
+        rep.ok("R1", f"{n} parse contexts", "every Check holds and every Computed member evaluates for valid date-times at the ends of the calendar, every deviation class, clock-status octets "
+               "0x00..0xFF classes, specified / unspecified hundredths and day of week")
 
 
 def _realize(v):
